@@ -103,7 +103,8 @@ func runC18(c *Ctx) {
 		if loop == nil {
 			R.Ob("(*dataCloser).Close/LMTP reply loop", c.P.Pos(f.Pos()), false, "no loop reading replies found")
 		} else {
-			// counter phi
+			// two accepted shapes: a countdown from len(rcpts), or a range over rcpts
+			rangeShape := loop.overRcShape("Client.rcpts")
 			var ctr *ssa.Phi
 			for _, in := range loop.header.Instrs {
 				if phi, ok := in.(*ssa.Phi); ok && isIntType(phi.Type()) {
@@ -111,7 +112,9 @@ func runC18(c *Ctx) {
 				}
 			}
 			okInit, okStep, okCond := false, false, false
-			if ctr != nil {
+			if rangeShape {
+				okInit, okStep, okCond = true, true, true // go/ssa's rangeindex loop: -1, +1, < len(rcpts) by construction
+			} else if ctr != nil {
 				okStep = true
 				for i, e := range ctr.Edges {
 					if loop.blocks[loop.header.Preds[i]] {
@@ -160,6 +163,9 @@ func runC18(c *Ctx) {
 			R.Ob("(*dataCloser).Close/callback exactly once per iteration when supplied", c.P.InstrPos(loop.header.Instrs[0]), cbH.Min == 1 && cbH.Max == 1, fmt.Sprintf("with a callback it fires %d..%d times per iteration", cbH.Min, cbH.Max))
 			// attribution
 			idxRe := regexp.MustCompile(`^Client\.rcpts\[\(builtin:len\(Client\.rcpts\) - loopvar:expectedResponses@for\.loop#\d+\)\]$`)
+			if rangeShape {
+				idxRe = regexp.MustCompile(`^Client\.rcpts\[\(loopvar:rangeindex@rangeindex\.loop#\d+ \+ 1\)\]$`)
+			}
 			for b := range loop.blocks {
 				for _, in := range b.Instrs {
 					if !labelHas(c.stdLabels(in), "dyncall") {
